@@ -21,8 +21,11 @@
 EXTENDS VmOps
 
 CONSTANTS GasMax,          \* u64::MAX in the real instance
-          ChildGasShared   \* FALSE: as coded today (F9) - every child starts at 0 with the
+          ChildGasShared,  \* FALSE: as coded today (F9) - every child starts at 0 with the
                            \* full limit; TRUE: intended - children draw on the parent's budget
+          Answer(_, _)     \* (C, request) -> [found, resp]: how the state answers a key-range
+                           \* request; TableAnswer below looks it up in C.reads, Checker.tla
+                           \* supplies the pre-state / post-state overlay model
 
 -----------------------------------------------------------------------------
 EmptyResp == [ok |-> TRUE, vals |-> <<>>]
@@ -36,22 +39,24 @@ Lookup(reads, req) ==
   ELSE IF Head(reads).req = req THEN [found |-> TRUE, resp |-> Head(reads).resp]
   ELSE Lookup(Tail(reads), req)
 
+TableAnswer(C, req) == Lookup(C.reads, req)
+
 \* One operation other than COM, with the state consulted for key-range reads.
 StepWithState(op, vm, C) ==
   IF ~IsStateRead(op) THEN StepOp(op, vm, [C.env EXCEPT !.resp = EmptyResp])
   ELSE LET probe == StepOp(op, vm, [C.env EXCEPT !.resp = EmptyResp]) IN
        IF probe.k = "err" THEN probe
-       ELSE LET ans == Lookup(C.reads, probe.req) IN
+       ELSE LET ans == Answer(C, probe.req) IN
             IF ~ans.found THEN E("unrecorded request")
             ELSE StepOp(op, vm, [C.env EXCEPT !.resp = ans.resp])
 
 \* Gas check before the op (vm.rs: checked_add + filter(<= limit)).
 ChargeOk(gas, c, limit) == gas + c <= GasMax /\ gas + c <= limit
 
-\* Outcomes of a run
-Done(vm, gas)      == [k |-> "ok",  vm |-> vm, gas |-> gas]
-Fail(vm, gas, c)   == [k |-> "err", vm |-> vm, gas |-> gas, c |-> c]    \* at vm.pc
-OutOfGas(vm, gas)  == [k |-> "oog", vm |-> vm, gas |-> gas]             \* at vm.pc, nothing executed
+\* Outcomes of a run; log is the sequence of state requests made (children in index order)
+DoneL(vm, gas, log)     == [k |-> "ok",  vm |-> vm, gas |-> gas, log |-> log]
+FailL(vm, gas, c, log)  == [k |-> "err", vm |-> vm, gas |-> gas, c |-> c, log |-> log]   \* at vm.pc
+OutOfGasL(vm, gas, log) == [k |-> "oog", vm |-> vm, gas |-> gas, log |-> log]   \* at vm.pc, nothing executed
 
 \* Child i of a Compute executed by parent vm (whose breadth has been popped: rest)
 ChildInit(vm, rest, i) ==
@@ -62,58 +67,60 @@ Max(a, b) == IF a >= b THEN a ELSE b
 
 -----------------------------------------------------------------------------
 (* Big-step sequential execution *)
-RECURSIVE Exec(_, _, _)
+RECURSIVE ExecL(_, _, _, _)
 RECURSIVE RunKids(_, _, _, _, _, _)
 
-\* Runs children i..n-1 in index order.  acc = [mem, pc, gas, halt] accumulated so far;
-\* base is the gas a child starts from (0 as coded; the running total when shared).
+\* Runs children i..n-1 in index order.  acc = [mem, pc, gas, halt, log] accumulated so far.
 RunKids(vm, rest, i, n, acc, C) ==
   IF i = n THEN [k |-> "ok", acc |-> acc]
   ELSE LET start == IF ChildGasShared THEN acc.gas ELSE 0
-           r == Exec(ChildInit(vm, rest, i), start, C) IN
-       IF r.k # "ok" THEN [k |-> r.k, c |-> IF r.k = "err" THEN r.c ELSE "child out of gas"]
+           r == ExecL(ChildInit(vm, rest, i), start, acc.log, C) IN
+       IF r.k # "ok" THEN [k |-> r.k, c |-> IF r.k = "err" THEN r.c ELSE "child out of gas", log |-> r.log]
        ELSE LET used == IF ChildGasShared THEN r.gas - acc.gas ELSE r.gas IN
-            IF acc.gas + used > GasMax THEN [k |-> "err", c |-> "gas overflow"]
+            IF acc.gas + used > GasMax THEN [k |-> "err", c |-> "gas overflow", log |-> r.log]
             ELSE RunKids(vm, rest, i + 1, n,
                          [mem |-> acc.mem \o r.vm.mem, pc |-> Max(acc.pc, r.vm.pc),
-                          gas |-> acc.gas + used, halt |-> acc.halt \/ r.vm.halt], C)
+                          gas |-> acc.gas + used, halt |-> acc.halt \/ r.vm.halt, log |-> r.log], C)
 
 \* The Compute op on parent vm with gas g (already charged for COM itself).
 \* Returns a run outcome whose vm is the parent after the join (not yet continued).
-ComputeStep(vm, g, C) ==
+ComputeStep(vm, g, log, C) ==
   LET st == vm.st IN
-  IF Len(st) < 1 THEN Fail(vm, g, "stack empty")
+  IF Len(st) < 1 THEN FailL(vm, g, "stack empty", log)
   ELSE LET n == st[Len(st)]
            rest == DropLast(st, 1) IN
-  IF n < 1 THEN Fail(vm, g, "invalid breadth")
-  ELSE IF Len(vm.pm) >= MaxDepth THEN Fail(vm, g, "depth reached")
-  ELSE IF Len(rest) >= StackLimit THEN Fail(vm, g, "stack overflow")   \* pushing the index
+  IF n < 1 THEN FailL(vm, g, "invalid breadth", log)
+  ELSE IF Len(vm.pm) >= MaxDepth THEN FailL(vm, g, "depth reached", log)
+  ELSE IF Len(rest) >= StackLimit THEN FailL(vm, g, "stack overflow", log)   \* pushing the index
   ELSE LET kids == RunKids(vm, rest, 0, n,
                            [mem |-> <<>>, pc |-> vm.pc, gas |-> IF ChildGasShared THEN g ELSE 0,
-                            halt |-> vm.halt], C) IN
-  IF kids.k # "ok" THEN Fail(vm, g, kids.c)
-  ELSE IF Len(vm.mem) + Len(kids.acc.mem) > MemLimit THEN Fail(vm, g, "memory overflow")
+                            halt |-> vm.halt, log |-> log], C) IN
+  IF kids.k # "ok" THEN FailL(vm, g, kids.c, kids.log)
+  ELSE IF Len(vm.mem) + Len(kids.acc.mem) > MemLimit THEN FailL(vm, g, "memory overflow", kids.acc.log)
   ELSE LET total == IF ChildGasShared THEN kids.acc.gas ELSE g + kids.acc.gas IN
-       IF total > GasMax \/ total > C.limit THEN Fail(vm, g, "out of gas at the join")
-       ELSE Done([vm EXCEPT !.st = rest, !.mem = vm.mem \o kids.acc.mem,
-                            !.pc = kids.acc.pc, !.halt = kids.acc.halt], total)
+       IF total > GasMax \/ total > C.limit THEN FailL(vm, g, "out of gas at the join", kids.acc.log)
+       ELSE DoneL([vm EXCEPT !.st = rest, !.mem = vm.mem \o kids.acc.mem,
+                             !.pc = kids.acc.pc, !.halt = kids.acc.halt], total, kids.acc.log)
 
-Exec(vm, gas, C) ==
-  IF vm.pc < 0 \/ vm.pc >= Len(C.prog) THEN Done(vm, gas)
+ExecL(vm, gas, log, C) ==
+  IF vm.pc < 0 \/ vm.pc >= Len(C.prog) THEN DoneL(vm, gas, log)
   ELSE LET op == C.prog[vm.pc + 1]
            c == C.cost[op.n] IN
-  IF ~ChargeOk(gas, c, C.limit) THEN OutOfGas(vm, gas)
+  IF ~ChargeOk(gas, c, C.limit) THEN OutOfGasL(vm, gas, log)
   ELSE LET g == gas + c IN
   IF op.n = "COM"
-  THEN LET r == ComputeStep(vm, g, C) IN
+  THEN LET r == ComputeStep(vm, g, log, C) IN
        IF r.k # "ok" THEN r
-       ELSE IF r.vm.halt THEN r ELSE Exec(r.vm, r.gas, C)
+       ELSE IF r.vm.halt THEN r ELSE ExecL(r.vm, r.gas, r.log, C)
   ELSE LET r == StepWithState(op, vm, C) IN
-       IF r.k = "err" THEN Fail(vm, g, r.c)
-       ELSE CASE r.ctl.t = "next" -> Exec([r.vm EXCEPT !.pc = vm.pc + 1], g, C)
-              [] r.ctl.t = "pc"   -> Exec([r.vm EXCEPT !.pc = r.ctl.n], g, C)
-              [] r.ctl.t = "halt" -> Done(r.vm, g)
-              [] r.ctl.t = "come" -> Done([r.vm EXCEPT !.pc = vm.pc + 1], g)
+       IF r.k = "err" THEN FailL(vm, g, r.c, log)
+       ELSE LET log2 == IF r.req.view = "none" THEN log ELSE Append(log, r.req) IN
+            CASE r.ctl.t = "next" -> ExecL([r.vm EXCEPT !.pc = vm.pc + 1], g, log2, C)
+              [] r.ctl.t = "pc"   -> ExecL([r.vm EXCEPT !.pc = r.ctl.n], g, log2, C)
+              [] r.ctl.t = "halt" -> DoneL(r.vm, g, log2)
+              [] r.ctl.t = "come" -> DoneL([r.vm EXCEPT !.pc = vm.pc + 1], g, log2)
+
+Exec(vm, gas, C) == ExecL(vm, gas, <<>>, C)
 
 \* Evaluation (vm.rs Vm::eval): the top of the final stack must be 0 or 1.
 Eval(vm, gas, C) ==
